@@ -9,7 +9,7 @@ import pyubx2.ubxtypes_core as core
 import gen
 import impl
 
-PROPFILES = ["props/C18.v"]
+PROPFILES = ["props/C18.v", "props/C18_src.v"]
 RULE = ("V2B/B2V/NOMVAL correspondence for every attribute type in ubxtypes_core (+ unknown letters and malformed "
         "sizes): 1- and 2-byte integer types exhaustively, wider ones at range edges +-2 and random, floats of all "
         "classes, wrong-type values, wrong-length bytes; CK/ISVALID on all byte strings <= 3 over a small alphabet + "
